@@ -45,13 +45,14 @@ def plan(tier, seed):
     jobs = [{"name": "wrap%02d" % i, "spec": {"kind": "wrap", "n": 80 if q else 6000, "i": i}} for i in range(NSH)]
     jobs += [{"name": "dflt%02d" % i, "spec": {"kind": "default", "n": 40 if q else 2500, "i": i}} for i in range(8)]
     jobs += [{"name": "unwrap%02d" % i, "spec": {"kind": "unwrap", "n": 80 if q else 5000, "i": i}} for i in range(8)]
+    jobs += [{"name": "threads%02d" % i, "spec": {"kind": "threads", "rounds": 3 if q else 40}} for i in range(2 if q else 8)]
     return jobs
 
 
 def mandatory_bins(tier):
     b = ["sel_%d_explicit" % s for s in range(4)] + ["sel_%d_no_encryptors" % s for s in range(4)] + ["sel_%d_only_other_selectors" % s for s in range(4)] + ["sel_%d_default_encryptor_object" % s for s in range(4)]
     b += ["scalar_1", "scalar_2", "scalar_n-2", "scalar_n-1", "scalar_2^k", "scalar_2^k-1", "scalar_random", "key_trailing_zero", "key_all_zero", "model_block_opened_by_real_decryptor",
-          "whole_file_with_ecc_block", "published_keys_pinned", "explicit_recipients_created_before_first_default_use"]
+          "whole_file_with_ecc_block", "published_keys_pinned", "explicit_recipients_created_before_first_default_use", "encryptors_given_as_one_shot_iterator", "encryptors_given_as_generator", "blocks_packed_by_concurrent_threads"]
     b += ["invalid:" + c for c in INVALID_CLASSES]
     return b
 
@@ -134,8 +135,18 @@ def run_wrap(ns, ctx, spec):
         spec_b = {"kind": "ecc", "sel": sel, "priv": priv}
         dec = GB.encryptor_for(ns, spec_b, True)
         others = [B.EccDecryptor((sel + 1) % 4, GB.private_key_obj(ns, rng.randrange(1, ecies.P256_N)))] if idx % 3 == 0 else []
+        enc_arg = others + [dec]
+        how_given = idx % 5
+        if how_given == 1:
+            enc_arg = iter(enc_arg)  # a one-shot iterable is enough for ONE block
+            ctx.bin("encryptors_given_as_one_shot_iterator")
+        elif how_given == 2:
+            enc_arg = (e_ for e_ in list(enc_arg))
+            ctx.bin("encryptors_given_as_generator")
+        elif how_given == 3:
+            enc_arg = tuple(enc_arg)
         try:
-            blk = B.InitEccAuthBlock(sel).pack(key, others + [dec])
+            blk = B.InitEccAuthBlock(sel).pack(key, enc_arg)
             ctx.mon("pack")
         except Exception as e:
             ctx.violation("pack_raises", {"exc": fmt_exc(e)}, rp)
@@ -163,6 +174,43 @@ def run_wrap(ns, ctx, spec):
                     ctx.violation("recovered_key_does_not_authenticate_the_file:" + e.rule, {}, rp)
         if j == 0:
             ctx.sample({"kind": "wrap", "sel": sel, "recipient_scalar": hex(priv), "session_key": key, "block": blk})
+
+
+def run_threads(ns, ctx, spec):
+    """ECC blocks for different recipients packed by several threads at the same time, interleaved at every source line of the
+    crypto plug-in's key classes and of the ECC encryptor: each block must open, with the independent model, to its own key"""
+    from ..sched import yieldrun
+
+    B = ns.bec2file
+    rng = ctx.rng
+    codes = yieldrun.code_objects_of(ns.plugin.PrivateEccKeyProxy, ns.plugin.PublicEccKeyProxy, B.EccEncryptor, B.EccDecryptor, B.InitEccAuthBlock)
+    total = 0
+    for rnd in range(spec["rounds"]):
+        nthreads = (2, 3)[rnd % 2]
+        privs = [rng.randrange(1, ecies.P256_N) for _ in range(nthreads)]
+        sels = [rng.randrange(4) for _ in range(nthreads)]
+        keys = [rng.randbytes(16) for _ in range(nthreads)]
+        decs = [GB.encryptor_for(ns, {"kind": "ecc", "sel": sels[i], "priv": privs[i]}, True) for i in range(nthreads)]
+
+        def body(i):
+            return lambda: B.InitEccAuthBlock(sels[i]).pack(keys[i], [decs[i]])
+
+        res, y = yieldrun.run_concurrently([body(i) for i in range(nthreads)], codes, sleep=0.0003, max_yields=4000)
+        total += y
+        ctx.ev(nthreads)
+        ctx.bin("blocks_packed_by_concurrent_threads")
+        ctx.mon("pack", nthreads)
+        ctx.distinct("threads", rnd, privs, keys)
+        for i, r in enumerate(res):
+            rp = {"kind": "threads", "priv": hex(privs[i]), "sel": sels[i], "key": keys[i].hex()}
+            if r is None:
+                ctx.note("thread_still_running_after_timeout(inconclusive)")
+            elif r[0] == "exc":
+                ctx.violation("pack_raises", {"exc": r[1], "concurrent": True}, rp)
+            else:
+                check_block(ctx, r[1], sels[i], privs[i], keys[i], rp, "packed_by_concurrent_threads")
+    ctx.mon("line_yields_injected", total)
+    ctx.sample({"kind": "threads", "rounds": spec["rounds"], "line_yields": total})
 
 
 class Pin:
@@ -368,6 +416,8 @@ def run_shard(spec, ctx):
         run_wrap(ns, ctx, spec)
     elif k == "default":
         run_default(ns, ctx, spec)
+    elif k == "threads":
+        run_threads(ns, ctx, spec)
     else:
         run_unwrap(ns, ctx, spec)
 
@@ -375,7 +425,9 @@ def run_shard(spec, ctx):
 def replay(rec, ctx):
     ns = load()
     k = rec.get("kind")
-    if k == "default":
+    if k == "threads":
+        run_threads(ns, ctx, {"rounds": 3})
+    elif k == "default":
         run_default(ns, ctx, {"n": 12, "i": 0})
     elif k == "unwrap":
         run_unwrap(ns, ctx, {"n": 20, "i": 0})
